@@ -11,12 +11,12 @@ def ob(name, nop, lowbits, **kw):
     o = dict(name=name, src='h_queue.c', defs=['NOP=%d' % nop, 'LOWBITS=%d' % lowbits], units=['src/task.c'], incl=['src/echsd.c'],
              replay_units='all', replay_extra_units=['src/logger.c'], unwind=max(nop, 4) + 2,
              unwindset={'put_task_slot.*': (1 << lowbits) + 18, 'get_task_slot.*': 18, 'make_task_pool.*': 5, 'memset.*': 4, 'strlen.*': 10, 'strdup.*': 10, 'memcpy.*': 10},
-             solver='cadical', timeout=1200, mem_gb=16, object_bits=12, checks=['--bounds-check', '--pointer-check'], restrict_fp=FP,
+             solver='cadical', timeout=1200, mem_gb=16, object_bits=12, checks=['--bounds-check', '--pointer-check'], restrict_fp=FP, replace_calls={'add_chkpnt': 'env_add_chkpnt', 'make_chld': 'env_make_chld', 'free_chld': 'env_free_chld'},
              allow_nobody=['snprintf', 'lseek', 'echs_log', 'echs_errlog', 'obint_name', 'dt_strf', 'free_strlst'],
              enc=['_inject_task1', '_eject_task1', 'get_task', 'make_task', 'free_task', 'put_task_slot', 'get_task_slot', 'echs_task_owned_by_p', 'free_echs_task', 'echs_task_rset_ownr'],
              sym='the three oids, the operation history (kind, which oid, which user), root vs per-user daemon',
              bounds='%d operations, 3 oids, 2 users, table <= %d slots' % (nop, 1 << (lowbits + 1)), outside='longer histories; GET /queue and /sched rendering; socket credentials',
-             stubs=['libev/spawn/passwd stand-ins (harness/common/echsd_env.h)', 'array-backed streams', 'hook pool sizes'])
+             stubs=['make_chld/free_chld replaced by a separate-objects allocator (the malloc-threaded pool costs > 40 GB of formula)', 'add_chkpnt() cut (goto-instrument --replace-calls): checkpoint bookkeeping is C06', 'libev/spawn/passwd stand-ins (harness/common/echsd_env.h)', 'array-backed streams', 'hook pool sizes'])
     o.update(kw)
     return o
 OBLIGATIONS = [
